@@ -10,9 +10,9 @@ BIN_DIR="$(dirname "$(rustup which --toolchain nightly rustc)")/../lib/rustlib/x
 cd /verif/harness || exit 2
 export CARGO_NET_OFFLINE=true RUST_LIB_BACKTRACE=0 VERIF_NO_SIMD=1
 RUSTFLAGS="-C instrument-coverage" CARGO_TARGET_DIR=$T cargo build --release --offline 2>&1 | tail -2
-for id in C01 C02 C03 C04 C05 C06 C07 C08 C09 C10 C11 C12 C13 C14 C15 C16 C17 C18 C20; do
+for id in C17 C04 C11 C20 C16 C06 C12 C13 C14 C15 C05 C07 C10 C09 C08 C03 C02 C18 C01; do
   echo "== $id $(date +%H:%M)"
-  LLVM_PROFILE_FILE="$OUT/raw/$id-%p.profraw" VERIF_OUT="$OUT/vout" VERIF_TIER=quick nice -n 10 $T/release/mc $id --tier quick 2>&1 | grep "tier=" | cut -c1-160
+  LLVM_PROFILE_FILE="$OUT/raw/$id-%p.profraw" VERIF_OUT="$OUT/vout" VERIF_TIER=quick VERIF_WORKERS=6 nice -n 10 $T/release/mc $id --tier quick 2>&1 | grep "tier=" | cut -c1-160
 done
 LLVM_PROFILE_FILE="$OUT/raw/C19-%p.profraw" nice -n 10 $T/release/mc C19-keygen "$OUT/vout/c19" >/dev/null 2>&1
 "$BIN_DIR/llvm-profdata" merge -sparse "$OUT"/raw/*.profraw -o "$OUT/all.profdata" || exit 2
